@@ -443,6 +443,8 @@ def run_case(g, thorough: bool) -> Case:
                     for fn, f in gs.type_map[other].fields.items():
                         if f.ast_node.default_value is not None:
                             blame = blame or default_class(f.type, f.ast_node.default_value)
+                if not blame and cs.stream_class() and cs.stream_class() != F18:
+                    blame = cs.stream_class()   # an object default instantiates the class that carries the bad default
                 if blame:
                     cs.finding(blame, what, **kw)
                 elif (iv.reachable_inputs(GraphQLNonNull(t), minv) & collide):
@@ -463,6 +465,9 @@ def run_case(g, thorough: bool) -> Case:
                 cls = default_class(f.type, node)
                 if tn in collide:
                     cls = cls or F18
+                if cls is None and isinstance(get_named_type(f.type), GraphQLInputObjectType) \
+                        and cs.stream_class() and cs.stream_class() != F18:
+                    cls = cs.stream_class()   # object default whose class carries the stream's bad default
                 if got is None or "exc" in got:
                     what = f"default of {tn}.{fn} cannot be read back: {got}"
                     (cs.finding(cls, what, input_type=tn, field=fn, observed=got) if cls
